@@ -65,8 +65,8 @@ func init() {
 		Level: "exploration",
 		Rule: "Each evaluation is one seeded simulated signing run: generated access structure (five families incl. non-ideal ones, 2-5 holders, sparse/large ids) with its independent reference predicate, key material from the trusted dealer or from a Gennaro/Canetti DKG run in the same simulated cluster, a qualified quorum drawn from the reference evaluator (minimal, minimal+extra, all holders), a message (empty, 1 byte, 32 bytes, 1 KiB, text), real session setup (a third of the runs: contexts derived with SubContext from one parent session, per party in its own order) + real signing runner of the chosen protocol over the simulated network with reordering, duplication, redelivery and foreign injection, 1-2 concurrent signing sessions per key; every quorum member and one outsider aggregate. Non-trivial = at least one non-FIFO delivery or injected fault. Distinct = hash of (workload, configuration class, decision trace).",
 		Assumptions: []string{"independent verifiers: ECDSA and BIP-340 and plain Schnorr written from their specifications over /verif/ref curve arithmetic, plus crypto/ecdsa (P-256) and crypto/ed25519 where wire-compatible; BLS and Mina use the library verifier plus an omniscient algebraic check (semi-independent)", "message hashing uses the Go standard library hash functions"},
-		Real: []string{"pkg/mpc/signatures: schnorr/lindell22 (BIP-340, plain Schnorr, Mina), ecdsa/dkls23 (bbot, softspoken), ecdsa/lindell17 (signing, trusted dealer, DKG), bls/boldyreva02 (short and long keys, three rogue-key schemes) as listed in per_workload", "pkg/encryption/paillier, pkg/proofs/paillier (lp, lpdl, range) through Lindell17", "pkg/mpc/session, dkg, sharing, zero", "pkg/ot, pkg/mpc/rvole", "pkg/network router, echo, exchange", "pkg/signatures verifiers", "curves, fields, proofs, commitments"},
-		Stub: commonStub, ExpectedProbes: []string{"dup", "redeliver", "inject", "quorum_minimal", "quorum_non_minimal", "quorum_all_holders", "non_cosigning_aggregator", "concurrent_signing_sessions", "non_ideal_structure", "keysource_gennaro", "keysource_canetti", "keysource_dealer", "independent_verifications", "semi_independent_verifications", "omniscient_checks", "signing_context_from_subcontext", "lindell17_dkg_completed"},
+		Real: []string{"pkg/mpc/signatures: schnorr/lindell22 (BIP-340, plain Schnorr, Mina), ecdsa/dkls23 (bbot, softspoken), ecdsa/lindell17 (signing, trusted dealer, DKG), ecdsa/cggmp21 (signing, trusted dealer; auxiliary DKG in the thorough tier), bls/boldyreva02 (short and long keys, three rogue-key schemes) as listed in per_workload", "pkg/encryption/paillier, pkg/proofs/paillier (lp, lpdl, range) through Lindell17", "pkg/mpc/session, dkg, sharing, zero", "pkg/ot, pkg/mpc/rvole", "pkg/network router, echo, exchange", "pkg/signatures verifiers", "curves, fields, proofs, commitments"},
+		Stub: commonStub, ExpectedProbes: []string{"dup", "redeliver", "inject", "quorum_minimal", "quorum_non_minimal", "quorum_all_holders", "non_cosigning_aggregator", "concurrent_signing_sessions", "non_ideal_structure", "keysource_gennaro", "keysource_canetti", "keysource_dealer", "independent_verifications", "semi_independent_verifications", "omniscient_checks", "signing_context_from_subcontext", "lindell17_dkg_completed", "cggmp21_dkg_completed"},
 		QuickBudgetS: 300, ThoroughBudgetS: 2700,
 	}
 }
